@@ -146,6 +146,8 @@ def profile(kind, c):
     if kind == "N":    # chunk-size line larger than the arena: handle_req_chunk_size_line_no_space
         return dict(req=b"POST /k HTTP/1.1\r\nHost: a\r\nTransfer-Encoding: chunked\r\n\r\n" + b"0" * 1500 + b"5\r\nhello\r\n0\r\n\r\n",
                     setup=[], extra=70, mem=1024)
+    if kind == "T":    # method token larger than the arena: closed without a reply in MHD_connection_update_event_loop_info
+        return dict(req=b"G" * 1500 + b" / HTTP/1.1\r\nHost: a\r\n\r\n", setup=[], extra=70, mem=1024)
     if kind == "X":    # chunk extension larger than the arena (the double error response path, F9)
         return dict(req=b"POST /k HTTP/1.1\r\nHost: a\r\nTransfer-Encoding: chunked\r\n\r\n5;x=" + b"a" * 1500 + b"\r\nhello\r\n0\r\n\r\n",
                     setup=[], extra=70, mem=1024)
@@ -167,17 +169,20 @@ class Case:
       readiness in this round (select only).  Every event ends with one event-loop round.  After the
       events the application keeps calling the loop as the API demands (`drain`)."""
 
-    def __init__(self, name, mode, profs, events, drain=24, timeout=0):
+    def __init__(self, name, mode, profs, events, drain=24, timeout=0, strict=False, suspend=1):
         self.name, self.mode, self.profs, self.events, self.drain, self.timeout = name, mode, profs, events, drain, timeout
+        self.suspend = suspend    # MHD_ALLOW_SUSPEND_RESUME (implies the inter-thread channel: add/resume make a watched fd readable)
+        self.strict = strict      # the application calls the loop only when the API obliges it to (timeout known or watched fd ready)
         self.P = [profile(k, c) for c, k in enumerate(profs)]
 
     def key(self):
-        return "%s|%s|%s|%d" % (self.mode, "".join(self.profs), " ".join("".join(e) for e in self.events), self.timeout)
+        return "%s|%s|%s|%d%s%s" % (self.mode, "".join(self.profs), " ".join("".join(e) for e in self.events), self.timeout,
+                                    "s" if self.strict else "", "" if self.suspend else "n")
 
     def lines(self):
         mem = max([p.get("mem", 0) for p in self.P] + [0])
         out = ["case " + self.name,
-               "cfg mode=%s suspend=1%s%s" % (self.mode, " mem=%d" % mem if mem else "", " timeout=%d" % self.timeout if self.timeout else ""),
+               "cfg mode=%s suspend=%d%s%s" % (self.mode, self.suspend, " mem=%d" % mem if mem else "", " timeout=%d" % self.timeout if self.timeout else ""),
                "start"]
         for p in self.P:
             out += p["setup"]
@@ -203,10 +208,11 @@ class Case:
                     out.append("resume %d" % c)
                 elif a == "H":
                     hold.append(c)
+            w = "w" if self.strict else ""
             if hold and self.mode == "select":
-                out.append("round-ready " + " ".join("%d:%s" % (c, k) for c in range(n) if c not in hold for k in "rwe"))
+                out.append("round-ready%s " % ("-w" if self.strict else "") + " ".join("%d:%s" % (c, k) for c in range(n) if c not in hold for k in "rwe"))
             else:
-                out.append("round")
+                out.append("round" + w)
         out.append("drain %d" % self.drain)
         out.append("stop")
         return out
@@ -299,7 +305,11 @@ def parse_case(lines):
             continue
         m = re.match(r"resume c=(\d+)", ln)
         if m:
-            items.append(("resume", int(m.group(1)))); continue
+            rep = {}
+            items.append(("resume", int(m.group(1)), rep)); pending_report = rep; continue
+        if ln == "skipped":
+            rep = {}
+            items.append(("skipped", None, rep)); pending_report = rep; continue
         if pending_report is not None and take_report(pending_report, ln):
             if pending_report.get("closed"):
                 pending_report = None
@@ -337,7 +347,7 @@ def canon_state(snap, rep, mode):
 def to_driver(case, items):
     """-> (driver input lines, expected output lines, labels) for one case"""
     mode = case.mode
-    inp = ["mode %s suspend=1" % mode]
+    inp = ["mode %s suspend=%d" % (mode, case.suspend)]
     exp = ["ok"]
     lab = ["mode"]
     for it in items:
@@ -347,8 +357,12 @@ def to_driver(case, items):
             lab.append("arrive %d" % it[1])
         elif it[0] == "resume":
             inp.append("resume %d" % it[1])
-            exp.append(None)          # no report follows a resume in the harness log
+            exp.append("state " + canon_state(it[2].get("state", {}), it[2], mode) if "hint" in it[2] else None)
             lab.append("resume %d" % it[1])
+        elif it[0] == "skipped":
+            inp.append("state")
+            exp.append("state " + canon_state(it[2].get("state", {}), it[2], mode) if "hint" in it[2] else None)
+            lab.append("skipped round")
         elif it[0] == "round":
             r, rep = it[1], it[2]
             toks = []
@@ -376,27 +390,53 @@ def to_driver(case, items):
 
 # ------------------------------------------------------------------ law monitor (what the theorems assume of `Ops`)
 
-def law_monitor(items):
-    """The theorems assume: a handler call changes only its own connection, and moves it only
-    active -> suspended/cleanup or suspended -> cleanup.  Checked on every logged call."""
+ST_CLOSED = 22          # refreshed from Gen by law_monitor's caller (Spec.build)
+ELI = {"read": 1, "write": 2, "process": 4, "processRead": 5, "cleanup": 8}
+
+
+def law_monitor(items, tmo0=True):
+    """What the theorems assume of the abstract per-connection step (Mhd.Proofs.LoopCH `Laws`, LoopEpoll
+    `LawsEp`), checked on every logged handler call:
+      frame       a handler call changes only its own connection;
+      idle_where  it moves it only active -> suspended/cleanup or suspended -> cleanup;
+      idle_closed after handle_idle a closed connection is in the cleanup list, not in the active one (tmo0: no timeouts);
+      read_force  handle_read (socket_error = true) leaves the connection closed;
+      idle_quiet  handle_idle on a connection without pending work that is blocked on the network (no PROCESS bit, not
+                  read-ready while waiting to read, not write-ready while waiting to write; monitored for the first
+                  call on a connection in a round that is not in eready) leaves it blocked, or in a PROCESS state,
+                  or removes it from the active list."""
     errs = []
     for it in items:
         if it[0] != "round":
             continue
         r = it[1]
         prev = None
+        touched = set()
         for kind, c, arg, snap in r.calls:
             if prev is not None:
                 for wh in ("A", "S", "C"):   # epoll bits other than READ/WRITE_READY belong to the loop, not to the handlers
                     before = [(t[0], t[1], t[2], t[3] & 3, t[4], t[5]) for t in prev.get(wh, []) if t[0] != c]
                     after = [(t[0], t[1], t[2], t[3] & 3, t[4], t[5]) for t in snap.get(wh, []) if t[0] != c]
                     if before != after:
-                        # new connections are inserted between calls only by the loop itself, never inside a handler call
-                        errs.append("handler %s on c=%d changed other connections in list %s: %s -> %s" % (kind, c, wh, before, after))
-                w0, _ = where_of(prev, c)
-                w1, _ = where_of(snap, c)
+                        errs.append("frame: handler %s on c=%d changed other connections in list %s: %s -> %s" % (kind, c, wh, before, after))
+                w0, t0 = where_of(prev, c)
+                w1, t1 = where_of(snap, c)
                 if (w0, w1) not in (("A", "A"), ("A", "S"), ("A", "C"), ("S", "S"), ("S", "C"), ("C", "C")):
-                    errs.append("handler %s moved c=%d from %s to %s" % (kind, c, w0, w1))
+                    errs.append("idle_where: handler %s moved c=%d from %s to %s" % (kind, c, w0, w1))
+                if kind == "idle" and w1 == "A" and t1 is not None and t1[1] == ST_CLOSED and tmo0:
+                    errs.append("idle_closed: handle_idle left the closed connection c=%d in the active list" % c)
+                if kind == "idle" and w0 == "A" and w1 == "A" and t0 is not None and t1 is not None:
+                    def blocked(t):
+                        e, ep = t[2], t[3]
+                        return not (e & 4) and not ((e & 1) and (ep & 1)) and not (e == 2 and (ep & 2))
+                    # only for connections without pending work: not touched by read/write in this round, not in eready
+                    if c not in touched and not (t0[3] & 4) and blocked(t0) and not (t1[2] & 4) and not blocked(t1):
+                        errs.append("idle_quiet: handle_idle turned the blocked connection c=%d into %s" % (c, t1))
+            touched.add(c)
+            if kind == "read" and arg == 1:
+                w1, t1 = where_of(snap, c)
+                if t1 is not None and t1[1] != ST_CLOSED:
+                    errs.append("read_force: handle_read with socket_error left c=%d in state %d" % (c, t1[1]))
             prev = snap
     return errs
 
@@ -454,7 +494,9 @@ def oracle(case, items):
            sent its complete (or definitively malformed) request, has not closed and whose connection is not
            suspended by the application has its full reply or a close;
        (b) such a client is served within BASE_ROUNDS + extra(profile) fair rounds;
-       (c) the loop reaches a quiescent point (no endless zero-timeout spinning while a client awaits)."""
+       (c) the loop reaches a quiescent point (no endless zero-timeout spinning while a client awaits);
+       (d) at such a quiescent point no connection sits in the active list marked closed / CLEANUP (its socket is
+           still open, its slot still counted, its termination not yet notified: work that needs no input)."""
     n = len(case.profs)
     sent_done = [False] * n
     cclosed = [False] * n
@@ -484,11 +526,11 @@ def oracle(case, items):
             if c < n:
                 suspended[c] = False
                 fair[c] = 0
-            continue
-        if it[0] == "arrive":
+            rep = it[2]
+        elif it[0] == "arrive":
             rep = it[3]
-        elif it[0] == "round":
-            r, rep = it[1], it[2]
+        elif it[0] in ("round", "skipped"):
+            rep = it[2]
             ev = evq.pop(0) if evq else tuple("-" * n)
             for c in range(n):
                 a = ev[c]
@@ -496,14 +538,15 @@ def oracle(case, items):
                     sent_done[c] = True; fair[c] = 0
                 if a in "XW":
                     cclosed[c] = True
-            for ln in r.app:
-                m = re.match(r"suspend c=(\d+)", ln)
-                if m and int(m.group(1)) < n:
-                    suspended[int(m.group(1))] = True
-            nround += 1
-            for c in range(n):
-                if ev[c] != "H":
-                    fair[c] += 1
+            if it[0] == "round":
+                for ln in it[1].app:
+                    m = re.match(r"suspend c=(\d+)", ln)
+                    if m and int(m.group(1)) < n:
+                        suspended[int(m.group(1))] = True
+                nround += 1
+                for c in range(n):
+                    if ev[c] != "H":
+                        fair[c] += 1
         else:
             continue
         for ln in rep.get("io", []):
@@ -514,8 +557,14 @@ def oracle(case, items):
             if m and int(m.group(2)) < n:
                 gone[int(m.group(2))] = True
         kr = rep.get("kready", "")
-        any_ready = ("ep=1" in kr) or any(v for v in parse_idlist(kr).values())
+        any_ready = ("ep=1" in kr) or ("itc=1" in kr) or any(v for v in parse_idlist(kr).values())
         if rep.get("hint") == "none" and not any_ready:
+            stuck = [t[0] for t in rep.get("state", {}).get("A", []) if t[2] == 8]
+            if stuck:
+                errs.append(("quiescent-with-closed-connection",
+                             "after round %d: hint none, no watched descriptor ready, but connections %s are marked closed and "
+                             "still in the active list (not cleaned up); state %s" % (nround, stuck, rep.get("state")), nround))
+                break
             aw = [c for c in range(n) if awaiting(c)]
             if aw:
                 st = rep.get("state", {})
@@ -565,7 +614,7 @@ def conn_sequences(length, suspends, with_hold):
     return out
 
 
-def gen_exhaustive(mode, length, prof_pairs):
+def gen_exhaustive(mode, length, prof_pairs, strict=False, suspend=1):
     """all schedules of exactly `length` events over 2 connections (shorter ones are prefixes padded with idle rounds)"""
     for pa, pb in prof_pairs:
         sa = conn_sequences(length, profile(pa, 0).get("suspends", False), mode == "select")
@@ -581,7 +630,7 @@ def gen_exhaustive(mode, length, prof_pairs):
                     evs.pop()
                 if len(evs) < length:
                     continue          # covered by the shorter enumeration
-                yield Case("x", mode, [pa, pb], evs)
+                yield Case("x", mode, [pa, pb], evs, strict=strict, suspend=suspend)
 
 
 def gen_random(rng, mode, nconn=None):
@@ -589,7 +638,7 @@ def gen_random(rng, mode, nconn=None):
     pool = "GGCcSLPKEHMmRW"
     small = rng.random() < 0.25
     if small:
-        pool = "GCSOUNXM"
+        pool = "GCSOUNXMT"
     profs = [rng.choice(pool) for _ in range(n)]
     P = [profile(k, c) for c, k in enumerate(profs)]
     length = rng.randint(2, 9)
@@ -629,7 +678,8 @@ def gen_random(rng, mode, nconn=None):
             ev.append(a)
         evs.append(tuple(ev))
     tmo = rng.choice([0, 0, 0, 0, 5]) if mode == "select" else 0   # timeout lists are C10's; the epoll model needs 0
-    return Case("r", mode, profs, evs, drain=100 if small else 30, timeout=tmo)
+    susp = 1 if any(p.get("suspends") for p in P) or rng.random() < 0.6 else 0
+    return Case("r", mode, profs, evs, drain=100 if small else 30, timeout=tmo, strict=rng.random() < 0.5, suspend=susp)
 
 
 # ------------------------------------------------------------------ running
@@ -659,17 +709,33 @@ def strip_nums(s):
 class Spec:
     props_module = "Mhd.Props.C06"
     lean_targets = ["Mhd.Props.C06", "drv_loop"]
-    required_theorems = []
+    required_theorems = ["Mhd.C06.code_select_saves_prev", "Mhd.C06.code_poll_saves_prev", "Mhd.C06.code_epoll_saves_prev",
+                         "Mhd.C06.call_handlers_idles", "Mhd.C06.call_handlers_sync",
+                         "Mhd.C06.select_round_post", "Mhd.C06.poll_round_post", "Mhd.C06.epoll_round_post",
+                         "Mhd.C06.pending_flag", "Mhd.C06.pending_flag_epoll", "Mhd.C06.round_leaves_no_closed",
+                         "Mhd.C06.invariant_reachable", "Mhd.C06.invariant_reachable_epoll",
+                         "Mhd.C06.no_lost_wakeup", "Mhd.C06.no_lost_wakeup_epoll",
+                         "Mhd.C06.progress_one_round", "Mhd.C06.progress",
+                         "Mhd.C06.select_unsaved_prev_loses_wakeup", "Mhd.C06.select_unsaved_prev_breaks_invariant"]
     trusted_base = ["Lean 4 kernel", "axioms: propext, Classical.choice, Quot.sound at most (audited per theorem)",
                     "hand-written loop model lean/Mhd/Model/Loop.lean, LoopRounds.lean tied to daemon.c by this run's correspondence "
-                    "(call order, lists, flags, fd sets, hint class predicted for every logged round)",
-                    "tools/props/C06.py gen_loop (enum values regenerated semantically; the three saves-prev facts syntactically, cross-checked by the correspondence)",
-                    "harness/h_loop.c (link-time wrappers around the handler entry points, white-box snapshots), gcc, ASan/UBSan",
-                    "the per-connection step is a parameter of the model: its laws (Mhd.Proofs.LoopLaws) are monitored on every logged handler call"]
-    assumptions = ["single-threaded event loop (external select, external epoll; poll loop proved, correspondence via the model only)",
-                   "no listen socket, no TLS, no upgraded connections, no thread-per-connection",
-                   "application callbacks touch only their own connection (suspend it, queue a reply); resume / add are called between rounds",
-                   "connection timeout 0 in the epoll correspondence (timeout lists are C10's subject)"]
+                    "(handler-call order, list contents and order, flags, epoll bits, fd sets, hint class predicted for every logged round)",
+                    "tools/props/C06.py gen_loop (enum values regenerated semantically; the three saves-prev facts syntactically, "
+                    "cross-checked by the correspondence: a wrong flag shows up as a call-order difference)",
+                    "harness/h_loop.c (link-time wrappers around the handler entry points, white-box snapshots, interposed epoll_wait), gcc, ASan/UBSan",
+                    "the per-connection step is a parameter of the model (Ops); the theorems assume the law records Laws (Proofs/LoopCH), "
+                    "LawsEp (LoopEpoll), ProgLaws / LawOpen (LoopProgress); frame, idle_where, idle_closed/LawOpen, read_force, idle_quiet are "
+                    "monitored on every logged handler call, idle_sync and ProgLaws are what the independent oracle tests end-to-end"]
+    assumptions = ["single-threaded event loop: external select and external epoll in the correspondence; the poll loop (internal thread only in "
+                   "MHD) is covered by the model, its theorems and the regenerated saves-prev fact, not by a lock-step run",
+                   "no listen socket / accept, no TLS, no upgraded connections, no thread-per-connection, connection limit not reached",
+                   "application callbacks touch only their own connection (suspend it, queue a reply); MHD_resume_connection / MHD_add_connection "
+                   "are called between rounds; MHD_resume_connection only on suspended connections (API)",
+                   "the inter-thread channel (present with MHD_ALLOW_SUSPEND_RESUME) is a watched descriptor for the oracle and is not modelled: the "
+                   "model's quiescence uses the resuming / have_new flags only, which is the stronger statement",
+                   "connection timeout 0 in the epoll correspondence and in round_leaves_no_closed (timeout lists are C10's subject); with a timeout "
+                   "the model predicts only `none / 0 / some value` for MHD_get_timeout64",
+                   "kernel epoll semantics are an input of the model (the events epoll_wait delivered are read from the harness log)"]
 
     def gen(self, ctx):
         gen_loop()
@@ -738,7 +804,7 @@ class Spec:
                         stats["rounds_ending_in_process"] += 1
                     if it[2].get("hint") == "none":
                         stats["quiescent_reports"] += 1
-            law = law_monitor(items)
+            law = law_monitor(items, tmo0=(cs.timeout == 0))
             orc = oracle(cs, items)
             if orc:
                 kind, det, at = orc[0]
@@ -775,7 +841,8 @@ class Spec:
             for f in sorted(os.listdir(cdir)):
                 try:
                     j = json.load(open(os.path.join(cdir, f)))
-                    out.append(Case("c", j["mode"], j["profs"], [tuple(e) for e in j["events"]], j.get("drain", 30), j.get("timeout", 0)))
+                    out.append(Case("c", j["mode"], j["profs"], [tuple(e) for e in j["events"]], j.get("drain", 30), j.get("timeout", 0),
+                                    j.get("strict", False), j.get("suspend", 1)))
                 except (OSError, ValueError, KeyError):
                     pass
         return out
@@ -794,8 +861,16 @@ class Spec:
         for L in range(1, exh_len + 1):
             exh += list(gen_exhaustive("select", L, pairs_sel))
         nsel = len(exh)
-        for L in range(1, (exh_len if thorough else exh_len) + 1):
+        for L in range(1, exh_len + 1):
             exh += list(gen_exhaustive("epoll", L, pairs_ep))
+        nstrict0 = len(exh)
+        for L in range(1, exh_len):        # the same schedules with an application that calls the loop only when obliged to
+            exh += list(gen_exhaustive("select", L, pairs_sel, strict=True))
+            exh += list(gen_exhaustive("epoll", L, pairs_ep, strict=True))
+            # … and without MHD_ALLOW_SUSPEND_RESUME, i.e. without the inter-thread channel that would wake the application
+            nosusp = [(a, b) for a in "GC" for b in "GC"]
+            exh += list(gen_exhaustive("select", L, nosusp, strict=True, suspend=0))
+            exh += list(gen_exhaustive("epoll", L, nosusp, strict=True, suspend=0))
         nrand = (20000 if thorough else 1500) * (3 if boost else 1)
         rnd = [gen_random(ctx.rng, ctx.rng.choice(["select", "select", "epoll"])) for _ in range(nrand)]
         allc = cases + exh + rnd
@@ -815,7 +890,8 @@ class Spec:
                        "connections, per-connection actions {-,A,Q,X,U,H}, profile pairs select=%d epoll=%d; random: 1..3 connections, 14+ profiles"
                        % (exh_len, len(pairs_sel), len(pairs_ep)),
                "samples": [allc[ncorp].key() if len(allc) > ncorp else "", exh[len(exh) // 2].key(), rnd[0].key() if rnd else ""],
-               "exhaustive_schedules_select": nsel, "exhaustive_schedules_epoll": len(exh) - nsel, "exhaustive_bound_events": exh_len,
+               "exhaustive_schedules_select": nsel, "exhaustive_schedules_epoll": nstrict0 - nsel,
+               "exhaustive_schedules_strict_application": len(exh) - nstrict0, "exhaustive_bound_events": exh_len,
                "random_histories": len(rnd), "corpus": ncorp, "modes": modes, "profiles": profs, "outcomes": stats,
                "correspondence": {"call_handlers / internal_run_from_select / MHD_epoll / resume / new-connection processing / cleanup / "
                                   "internal_get_fdset2 / MHD_get_timeout64 (class)": "bounded-exhaustive (schedules <= %d events, 2 connections) + random %d" % (exh_len, len(rnd)),
@@ -830,12 +906,13 @@ def replay(ctx, path):
     lines = r["input"]
     # rebuild the Case from the recorded key
     det = r.get("detail", "")
-    m = re.search(r"case (\w+)\|(\w+)\|([^|]*)\|(\d+)", det)
+    m = re.search(r"case (\w+)\|(\w+)\|([^|]*)\|(\d+)(s?)(n?)", det)
     if not m:
         print("replay: cannot find the case key in the replay file"); return 2
     n = len(m.group(2))
     evs = [tuple(e) for e in m.group(3).split(" ") if e]
-    cs = Case("replay", m.group(1), list(m.group(2)), evs, drain=100, timeout=int(m.group(4)))
+    cs = Case("replay", m.group(1), list(m.group(2)), evs, drain=100, timeout=int(m.group(4)), strict=bool(m.group(5)),
+              suspend=0 if m.group(6) else 1)
     fl, st = [], {k: 0 for k in ("cases", "rounds", "calls", "rounds_with_close_or_suspend_and_survivor", "rounds_with_suspend",
                                  "rounds_with_new", "rounds_ending_in_process", "quiescent_reports", "oracle_violations", "diffs")}
     sp.run_batch([cs], fl, st)
